@@ -221,7 +221,16 @@ def run_case(ctx, case, idx, lines, expect):
     try:
         with quiet():
             base = make(spec)
-            dual = DualVigilanceART(base, lb)
+            if idx % 3 == 1:
+                # the lower vigilance configured AFTER construction, through the public set_params: the estimator must
+                # then decide with the value it reports, exactly like one constructed with it
+                lb0 = lb / 2.0 if lb > 0 else (float(spec["rho"]) / 2.0 if not inv else lb)
+                dual = DualVigilanceART(base, lb0)
+                dual.set_params(rho_lower_bound=lb)
+                rep["constructed_with_rho_lower_bound"] = lb0
+                cov.hit("rho_lower_bound-set-after-construction")
+            else:
+                dual = DualVigilanceART(base, lb)
     except Exception as e:
         ctx.issue("violation", f"DualVigilanceART.__init__:{cls}:{exc_enum(e)}",
                   f"constructor raised {e!r} for rho={spec['rho']} > rho_lower_bound={lb} >= 0", rep)
